@@ -10,6 +10,8 @@ package main
 //	        After every EnsureRoutes the same call is repeated (idempotence) and the script is run
 //	        once more on the *original* configuration alone (statelessness reference).
 //	script  one execution of executeLuaForCanary (hook) — checks the hand translation of the scripts.
+//	hist    histories with foreign events (re-created objects, refs added / removed) and API faults: see
+//	        suite_custom_hist.go.
 //
 // Canonical forms
 //
@@ -1158,6 +1160,8 @@ func cuEmitRaw(c *Ctx, op string, raw json.RawMessage) {
 		impl = guard(func() interface{} { return cuRunSeq(raw) })
 	case "script":
 		impl = guard(func() interface{} { return cuRunScript(raw) })
+	case "hist":
+		impl = guard(func() interface{} { return cuRunHist(raw) })
 	default:
 		panic("custom: unknown op " + op)
 	}
@@ -1192,6 +1196,10 @@ func runCustom(c *Ctx) {
 	}
 	for i := nSeq; i < c.N; i++ {
 		cuEmit(c, "script", g.script())
+	}
+	// histories with foreign events and API faults (suite_custom_hist.go)
+	for i, k := 0, c.N/4; i < k; i++ {
+		cuEmit(c, "hist", gs.hist())
 	}
 }
 
